@@ -97,6 +97,9 @@ func main() {
 		os.Exit(3)
 	}
 	var ops []opLine
+	// round 3: the cgo build of the statesql drive runs while everything else is evaluated
+	sqlB := startSQLBuild(run, repo)
+	sqlScs := sqlScenarios(run)
 
 	// ------------------------------------------------------------------ corpus (extractor + search self-test)
 	cs := newSearcher(g.Corpus)
@@ -289,9 +292,12 @@ func main() {
 		{"stateApiUnclassified", fmt.Sprint(uncl)},
 		{"counts", fmt.Sprintf("fns=%d exported=%d corpus=%d cfns=%d", len(g.Real.Funcs), nExp, nCorp, len(g.C.LuaFns))},
 	}
+	facts = append(facts, deepOracles(run, g)...)
 	for _, f := range facts {
 		ops = append(ops, opLine{"fact " + f[0], f[1], true})
 	}
+	// ------------------------------------------------------------------ `ro` entries of the tables, on the real code
+	ops = append(ops, roDrive(run, g)...)
 
 	// ------------------------------------------------------------------ C modules
 	for i, f := range g.C.LuaFns {
@@ -316,6 +322,8 @@ func main() {
 	for _, o := range ops {
 		run.Op(o.op, o.impl, o.nontrivial)
 	}
+	// ------------------------------------------------------------------ read-only SQL connection, on the real code
+	sqlDrive(run, sqlB, sqlScs)
 	run.SetExhaustive(true)
 }
 
@@ -543,7 +551,7 @@ func violates(f *HFunc, v valuation) bool {
 	return false
 }
 
-type state struct {
+type srchState struct {
 	pc  int
 	val valuation
 }
@@ -559,12 +567,12 @@ func (s *searcher) search(fn, mode string) *witness {
 		return nil
 	}
 	type item struct {
-		st state
+		st srchState
 		v  *visit
 	}
 	seen := map[string]bool{}
-	queue := []item{{state{g.entry, valuation{}}, nil}}
-	push := func(st state, v *visit) {
+	queue := []item{{srchState{g.entry, valuation{}}, nil}}
+	push := func(st srchState, v *visit) {
 		k := fmt.Sprintf("%d|%s", st.pc, st.val.key())
 		if !seen[k] {
 			seen[k] = true
@@ -590,16 +598,16 @@ func (s *searcher) search(fn, mode string) *witness {
 			if forbiddenKind(mode, in.sink.Kind) {
 				return &witness{mode: mode, sink: in.sink, path: append(trace(it.v), fmt.Sprintf("%s: %s [%s]", in.pos, in.sink.Name, in.sink.Kind))}
 			}
-			push(state{in.t, it.st.val}, it.v)
+			push(srchState{in.t, it.st.val}, it.v)
 		case "call":
 			if w := s.summary[mode][in.fn]; w != nil {
 				p := append(trace(it.v), fmt.Sprintf("%s: call %s", in.pos, in.fn))
 				return &witness{mode: mode, sink: w.sink, path: append(p, w.path...)}
 			}
-			push(state{in.t, it.st.val}, it.v)
+			push(srchState{in.t, it.st.val}, it.v)
 		case "choice":
 			for _, a := range in.alts {
-				push(state{a, it.st.val}, it.v)
+				push(srchState{a, it.st.val}, it.v)
 			}
 		case "branch":
 			need := map[int]bool{}
@@ -625,10 +633,10 @@ func (s *searcher) search(fn, mode string) *witness {
 				ct, cf := evalCond(in.cond, mode, v)
 				text := hDumpCondShort(in.cond, g.fn.Atoms)
 				if ct {
-					push(state{in.t, v}, &visit{it.v, fmt.Sprintf("%s: %s is true", in.pos, text)})
+					push(srchState{in.t, v}, &visit{it.v, fmt.Sprintf("%s: %s is true", in.pos, text)})
 				}
 				if cf {
-					push(state{in.f, v}, &visit{it.v, fmt.Sprintf("%s: %s is false", in.pos, text)})
+					push(srchState{in.f, v}, &visit{it.v, fmt.Sprintf("%s: %s is false", in.pos, text)})
 				}
 			}
 		}
